@@ -391,6 +391,10 @@ class Machine:
             fn = dotted(e.func) or ""
             if fn.split(".")[-1] == "cast" and len(e.args) == 2:
                 return self.ev(e.args[1], fr, st)
+            if fn == "bool" and len(e.args) == 1 and not e.keywords:
+                tv = self.truth(self.ev(e.args[0], fr, st))
+                if tv is not None:
+                    return K(tv)
             d_ = self.deps_of([self.ev(a, fr, st) for a in e.args])
             q_ = self.prog.qualify(self.func(fr.fq).module, fn) if fn else ""
             if fn in NOT_NONE_CALLS or q_.startswith(("numpy.", "math.")):
@@ -839,6 +843,33 @@ class Stepper(Machine):
             resumed = replace(cm_fr, node=tgt.idx, mode="cmresume")
             t2 = replace(t, cms=t.cms[:-1], frames=(*t.frames, resumed), exc=exceptional)
             return [(self.put_th(st, who, t2), Event(who, "with-exit", "exceptional" if exceptional else "normal", self.loc(fr)))]
+        # contextlib.suppress(<types>) around an exception the machine itself raised (queue.Empty): the exception ends here, what was pending before it
+        # (an exception being propagated through a finally) is pending again
+        if exceptional and t.exc and t.g("exc_name") == "Empty" and isinstance(n.stmt, ast.With):
+            sup = [it.context_expr for it in n.stmt.items if isinstance(it.context_expr, ast.Call) and (dotted(it.context_expr.func) or "").split(".")[-1] == "suppress"]
+            names = {(dotted(a) or "").split(".")[-1] for c_ in sup for a in c_.args}
+            if names & {"Empty", "Exception", "BaseException"}:
+                g_ = self.m.cfg(self.func(fr.fq))
+                # (the normal exit of `with suppress(..): while True: ...` is not reachable otherwise, hence not among the live nodes)
+                normal = [x for x in g_.nodes if x.kind == "with_exit" and x.stmt is n.stmt and self.succ(x, "next") is not None and self.succ(x, "next").kind not in ("exit",)] \
+                    or [x for x in g_.nodes if x.kind == "with_exit" and x.stmt is n.stmt and self.succ(x, "next") is not None]
+                target = self.succ(normal[0], "next") if normal else None
+                if target is None:
+                    # the builder drops the edges of the unreachable normal exit: the continuation is read off the statement list
+                    body = self.func(fr.fq).node.body
+                    if any(x is n.stmt for x in body):
+                        k_ = next(i for i, x in enumerate(body) if x is n.stmt)
+                        if k_ == len(body) - 1:
+                            target = g_.exit
+                        else:
+                            nn_ = g_.nodes_of(body[k_ + 1])
+                            target = nn_[0] if nn_ else None
+                if target is None:
+                    raise AnalysisError(f"{self.loc(fr)}: cannot find where control continues after the suppressing `with`")
+                was_exc, was_kind = t.g("outer_exc") or (False, None)
+                t2 = replace(t, exc=bool(was_exc)).gset("exc_kind", was_kind).gset("exc_name", None).gset("outer_exc", None)
+                t2 = self.with_top(t2, replace(fr, node=target.idx))
+                return [(self.put_th(st, who, t2), Event(who, "suppressed", "queue.Empty", self.loc(fr)))]
         # opaque context manager
         nxt = self.succ(n, "next") or self.succ(n, "exc")
         return [(self.put_th(st, who, self.with_top(t, replace(fr, node=nxt.idx))), None)]  # type: ignore[union-attr]
@@ -1015,7 +1046,7 @@ class Stepper(Machine):
             outs = self._finish_stmt(st2, who, n, K(None), True)
             return [(s, Event(who, "put", f"{qn} <- {self.fmt_msgs((v,))}", loc)) for s, _ in outs]
         if op == "get_timeout" and not content:
-            t2 = replace(t, exc=True).gset("exc_kind", "other")
+            t2 = replace(t, exc=True).gset("outer_exc", (t.exc, t.g("exc_kind"))).gset("exc_name", "Empty").gset("exc_kind", "other")
             return [(self._goto_exc(self.put_th(st, who, t2), who, n), Event(who, "raise", f"queue.Empty: timed get on {qn} gave up (nothing arrived in time)", loc))]
         if op in ("get", "get_timeout"):
             if not content:
@@ -1028,7 +1059,7 @@ class Stepper(Machine):
             return [(s, Event(who, "get", f"{qn} -> {self.fmt_msgs((msg,))}", loc)) for s, _ in outs]
         if op == "get_nowait":
             if not content:
-                t2 = replace(t, exc=True).gset("exc_kind", "other")
+                t2 = replace(t, exc=True).gset("outer_exc", (t.exc, t.g("exc_kind"))).gset("exc_name", "Empty").gset("exc_kind", "other")
                 return [(self._goto_exc(self.put_th(st, who, t2), who, n), Event(who, "raise", f"queue.Empty from get_nowait on {qn}", loc))]
             msg, rest = content[0], content[1:]
             outs = self._finish_stmt(st.qset(qn, rest), who, n, msg, True)
